@@ -65,6 +65,8 @@ class Eval:
             if name in ("min", "max") and len(args) == 2:
                 x, y = self.key(args[0]), self.key(args[1])
                 return min(x, y) if name == "min" else max(x, y)
+            if name == "abs_diff" and len(args) == 2:
+                return abs(self.key(args[0]) - self.key(args[1]))
             if name == "saturating_sub" and len(args) == 2:
                 return max(self.key(args[0]) - self.key(args[1]), 0)
             if name == "div_ceil" and len(args) == 2:
@@ -125,6 +127,8 @@ class Eval:
                 if m <= 0:
                     raise ErrPath()
                 return -(-x // m) * m
+            if nm == "abs_diff" and len(t["a"]) == 2:
+                return abs(self.poly(sym.operand(t["a"][0])) - self.poly(sym.operand(t["a"][1])))
             if nm == "is_multiple_of" and len(t["a"]) == 2:
                 x, m = self.poly(sym.operand(t["a"][0])), self.poly(sym.operand(t["a"][1]))
                 if x < 0 or m < 0:
